@@ -21,6 +21,36 @@ ASSUME = [
 ]
 
 
+def add_trait(draw, prog):
+    """kotlin only (the one backend with trait support): a bridged trait whose methods take primitives / enums / structs, and a struct
+    method taking `impl DvTrait`"""
+    mod = prog["modules"][0]
+    hosts = [it for it in mod["items"] if it["kind"] == "struct" and not it.get("out") and it["fields"] and not it.get("lifetimes")]
+    if not hosts:
+        return
+    enums = [it for it in mod["items"] if it["kind"] == "enum"]
+
+    def ty():
+        k = draw(st.sampled_from(["prim", "prim", "enum", "struct"]))
+        if k == "enum" and enums:
+            return ["enum", draw(st.sampled_from(enums))["name"]]
+        if k == "struct":
+            return ["struct", draw(st.sampled_from(hosts))["name"], []]
+        return ["prim", draw(st.sampled_from(["u8", "i16", "i32", "u32", "i64", "f32", "f64", "bool"]))]
+    methods = []
+    for i in range(draw(st.integers(1, 2))):
+        params = [["a%d" % j, ty()] for j in range(draw(st.integers(0, 3)))]
+        ret = draw(st.sampled_from([None, ["prim", "i32"], ["prim", "u8"], ["prim", "f64"]]))
+        methods.append({"name": "go%d" % i, "params": params, "ret": ret})
+    prog.setdefault("traits", []).append({"name": "DvTrait", "methods": methods})
+    text = "pub trait DvTrait { " + " ".join("fn %s(&self%s)%s;" % (
+        m["name"], "".join(", %s: %s" % (n, ir.rs_type(t)) for n, t in m["params"]), (" -> " + ir.rs_type(m["ret"])) if m["ret"] else "") for m in methods) + " }"
+    mod.setdefault("raw_items", []).append(text)
+    host = draw(st.sampled_from(hosts))
+    host["impls"].append({"attrs": [], "methods": [{"name": "dv_use_trait", "attrs": [], "lifetimes": [], "self": ["val"], "params": [["t", ["raw", "impl DvTrait"], []]], "ret": ["prim", "u8"]}]})
+    ir.default_order(mod)
+
+
 @st.composite
 def cases(draw):
     b = draw(st.sampled_from(["dart", "kotlin"]))
@@ -30,6 +60,8 @@ def cases(draw):
     prog = draw(S.programs(p))
     if b == "kotlin":
         kotlin_error_attrs(prog)
+    if b == "kotlin" and draw(st.integers(0, 2)) == 0:
+        add_trait(draw, prog)
     # a third of the programs rename some types for this backend and carry abi_renames: the native mirrors and every declaration
     # naming them must still resolve (under either the renamed or the Rust name, but consistently)
     if draw(st.integers(0, 2)) == 0:
@@ -121,6 +153,27 @@ def check_program(art, work, b, prog):
                         if not abi.compatible(ret, gret, b):
                             fails.append(("fn-return", "%s: %s returns %s in the native declaration, the C ABI returns %s" % (b, sym, abi.show(abi.normalize(gret)), abi.show(abi.normalize(ret)))))
                     if b == "kotlin":
+                        for q in m["params"]:
+                            if q[1][0] == "raw" and q[1][1].startswith("impl "):
+                                tr = next(x for x in prog["traits"] if x["name"] == q[1][1][5:])
+                                for tm in tr["methods"]:
+                                    rn = "Runner_DiplomatTraitMethod_%s_%s" % (tr["name"], tm["name"])
+                                    want_ps = [("ptr",)] + [abi.abi_type(prog, a) for _, a in tm["params"]]
+                                    want_ret = abi.abi_type(prog, tm["ret"]) if tm["ret"] else ("void",)
+                                    cases_.append(([b, "trait-method", [abi.show(abi.normalize(x)) for x in want_ps], abi.show(abi.normalize(want_ret))], len(want_ps) >= 3, "trait-method"))
+                                    try:
+                                        got = parsed.runner(rn)
+                                    except dartkt.ParseError as e:
+                                        fails.append(("trait-parse", "%s: trait method interface %s: %s" % (b, rn, e)))
+                                        continue
+                                    if got is None:
+                                        fails.append(("trait-missing", "%s: no callback interface %s found" % (b, rn)))
+                                        continue
+                                    gps, gret = got
+                                    if len(gps) != len(want_ps) or not all(abi.compatible(w, g, "kotlin-callback") for w, g in zip(want_ps, gps)) or not abi.compatible(want_ret, gret, "kotlin-callback"):
+                                        fails.append(("trait-signature", "%s: %s.invoke is declared (%s) -> %s, the vtable entry is (%s) -> %s" % (
+                                            b, rn, ", ".join(abi.show(abi.normalize(x)) for x in gps), abi.show(abi.normalize(gret)),
+                                            ", ".join(abi.show(abi.normalize(x)) for x in want_ps), abi.show(abi.normalize(want_ret)))))
                         # callback parameters: the JNA Callback interface's `invoke` is the C function pointer's signature
                         for q in m["params"]:
                             if q[1][0] != "cb":
